@@ -1,6 +1,9 @@
 (* C05 - c-inference = skeptical inference over all c-representations. *)
 From InfOCF Require Import Core Tol CInf PEnt Form Model CModel ThmC ThmPostInt.
 From InfOCFProps Require Import Ex.
+From InfOCF Require Import PyLib PyInt TieMax TieC.
+From InfOCFGen Require Import SrcC.
+From Coq Require Import ZArith.
 
 (* the compiled constraint system (minimal correction sets, minima encodings, no constraint for an unfalsifiable
    conditional) holds for eta exactly when kappa_eta accepts every conditional of D *)
@@ -36,6 +39,19 @@ Print Assumptions C05_p_entailment_sub_c_inference.
 Theorem C05_csp_satisfiable : forall n D P, part_strict n D = Some P -> exists eta, length eta = length D /\ csp_b n D eta = true.
 Proof. exact strict_csp_satisfiable. Qed.
 Print Assumptions C05_csp_satisfiable.
+
+
+(* SOURCE TIE.  compile_and_encode_query (with makeSummation, freshVars, minima_encoding) is GENERATED on every run from /repo's
+   c_inference.py (coq/gen/SrcC.v); integer constraints are PyInt terms, minimal_correction_subsets enters by its contract.
+   For every base with distinct keys, impact vector and query: the constraints the generated function returns have a
+   solution in the auxiliary minimum variables exactly when the model's query constraint holds (all four emptiness
+   cases included). *)
+Theorem C05_source_query_constraint : forall n D, NoDup (map kz D) -> forall eta, length eta = length D -> forall q, exists csp,
+  py_CInference_compile_and_encode_query n (nf_of D) q tt = Return (csp, tt) /\
+  forall sg, eta_assignment D eta sg ->
+    ((exists a b, csp_sat (with_aux sg a b) csp = true) <-> qcon_b n D eta q = true).
+Proof. exact tie_query_constraint. Qed.
+Print Assumptions C05_source_query_constraint.
 
 Example birds_c : check_counter 4 birds [1;2;2;1] q_fp = true /\ search_counter 4 birds 3 q_wp = None
   /\ selffulfilling 4 birds = false.
